@@ -49,4 +49,20 @@ __CPROVER_requires(e >= 1 && e < ERR_MAX && e != ERR_CAUGHT && g_expect_e == e &
 VC_ASSIGNS(g_ctx.code, g_ctx.last, g_ctx.caught, g_thrown, g_after, g_jmp_code_ok, g_jmp_err_ok, __CPROVER_object_whole(g_body), __CPROVER_object_whole(g_fin), __CPROVER_object_whole(g_catch), __CPROVER_object_whole(g_err))
 __CPROVER_ensures(0)     /* never returns normally in this model: every path ends at the jump */
 ;
+/* second-return model (harness/err_shapes.c): inner block left through a throw (g_sj[1] == 1) or normally (== 0), inner
+   handler swallows: inner finaliser once, inner handler iff thrown, OUTER handler never, outer finaliser once, code after
+   the inner block runs, chain restored, caught flag clear at the end */
+extern int g_sj[4]; extern int g_sj_n; extern sts_t *g_outer_frame;
+void vc_try2_swallow(void)
+__CPROVER_requires(g_body[0] == 0 && g_fin[0] == 0 && g_catch[0] == 0 && g_body[1] == 0 && g_fin[1] == 0 && g_catch[1] == 0 && g_after == 0 && g_sj_n == 0 && g_sj[0] == 0 && (g_sj[1] == 0 || g_sj[1] == 1))
+VC_ASSIGNS(g_ctx.last, g_ctx.caught, g_after, g_sj_n, __CPROVER_object_whole(g_body), __CPROVER_object_whole(g_fin), __CPROVER_object_whole(g_catch))
+__CPROVER_ensures(g_body[0] == 1 && g_fin[0] == 1 && g_catch[0] == 0 && g_after == 1)
+__CPROVER_ensures(g_fin[1] == 1 && g_catch[1] == g_sj[1] && g_body[1] == 1 - g_sj[1])
+__CPROVER_ensures(g_ctx.caught == 0 && VC_CTX_SAME_CHAIN)
+;
+void vc_try2_rethrow(void)
+__CPROVER_requires(g_body[0] == 0 && g_fin[0] == 0 && g_catch[0] == 0 && g_body[1] == 0 && g_fin[1] == 0 && g_catch[1] == 0 && g_after == 0 && g_sj_n == 0 && g_sj[0] == 0 && g_sj[1] == 1 && g_may_throw == 1 && g_ctx.code == RLC_ERR)
+VC_ASSIGNS(g_ctx.code, g_ctx.last, g_ctx.caught, g_thrown, g_after, g_sj_n, g_outer_frame, __CPROVER_object_whole(g_body), __CPROVER_object_whole(g_fin), __CPROVER_object_whole(g_catch))
+__CPROVER_ensures(0)     /* every path ends at the re-throw jump; the stub checks the state there */
+;
 #include "vc_spec_pop.h"
